@@ -148,7 +148,7 @@ const testImports = "// imports: bytes, net, reflect, testing, github.com/vapour
 func roundTripTest(v *Val) string {
 	extra := ""
 	if v.Kind == "TunnelReq" || v.Kind == "RoutingInd" {
-		extra = fmt.Sprintf("\tif g, ok := got.(*knxnet.%s); ok {\n\t\tt.Logf(\"payload sent as %%T (code %%#x) came back as %%T\", sent.Payload, sent.Payload.MessageCode(), g.Payload)\n\t}\n", v.Kind)
+		extra = fmt.Sprintf("\tif g, ok := got.(*knxnet.%s); ok {\n\t\tt.Logf(\"payload sent as %%T (code %%#x) came back as %%T\", sent.Payload, uint8(sent.Payload.MessageCode()), g.Payload)\n\t}\n", v.Kind)
 	}
 	return testImports + fmt.Sprintf(`func TestC02RoundTrip(t *testing.T) {
 	sent := %s
